@@ -191,6 +191,8 @@ class Renderer:
             return self.query(e[1], singular=True)
         if t == "nsq":
             return self.query(e[1])
+        if t == "pexpr":  # a parenthesised expression used as an operand (accepted, not RFC)
+            return "(" + self.S() + self.expr(e[1], 0) + self.S() + ")"
         if t == "tlit":
             return self.comparable(["lit", e[1]])
         if t == "key":
